@@ -456,9 +456,35 @@ pub fn run_shape<R: RecUni>(
     }
 }
 
+/// Number of ordinary runs; the runs after them sweep the custom-AIR universes systematically:
+/// every AIR list of the batch arm and every AIR kind of the uni-STARK arm, once under each PCS.
+pub fn base_runs(tier: Tier) -> u64 {
+    tier.pick(32, 320)
+}
+pub const SWEEP_RUNS: u64 = 2 * (crate::reccustom::N_ORDERS + crate::reccustom::N_UNI_KINDS) as u64;
+
 pub fn one_run(ctx: &Ctx, idx: u64, out: &mut RunOut) {
     let mut rng = Rng::new(ctx.seed, "C01", idx);
     foldhash::sim::set_seed(mix(ctx.seed, idx));
+    let base = base_runs(ctx.tier);
+    if idx >= base {
+        let k = (idx - base) as usize;
+        let uni = if k % 2 == 0 { "U-KB4-CUSTOM" } else { "U-KB4-CUSTOM-ZK" };
+        let which = k / 2;
+        let batch = which < crate::reccustom::N_ORDERS;
+        let mut spec = crate::with_rec_universe!(uni, U, draw_shape::<U>(&mut rng, ctx.tier, Some(if batch { "batch" } else { "uni" })));
+        if batch {
+            // the custom universes read the AIR list off the number of calls
+            spec.program = Some(crate::gprog::Program { calls: (0..which).map(|_| crate::gprog::Call::Public).collect(), publics: (0..which).map(|_| vec![1]).collect(), privates: vec![] });
+        } else {
+            let want = which - crate::reccustom::N_ORDERS;
+            let lo = (spec.fri.log_final_poly_len + 1).max(3);
+            spec.log_n = (lo..lo + crate::reccustom::N_UNI_KINDS).find(|l| crate::reccustom::uni_kind_index(&spec.fri, *l) == want).unwrap_or(lo);
+        }
+        out.count("custom_air_sweep_runs");
+        crate::with_rec_universe!(uni, U, run_shape::<U>(ctx.seed, idx, &spec, ctx.tier, None, out));
+        return;
+    }
     let uni = crate::rec::universe_of(idx);
     let spec = crate::with_rec_universe!(uni, U, draw_shape::<U>(&mut rng, ctx.tier, None));
     if out.samples.is_empty() {
@@ -525,7 +551,7 @@ pub fn main(ctx: &Ctx) -> i32 {
         }
         return 0;
     }
-    let runs: u64 = ctx.tier.pick(32, 320);
+    let runs: u64 = base_runs(ctx.tier) + SWEEP_RUNS;
     let res = crate::core::pool::run_jobs(runs, |idx| {
         let mut out = RunOut::default();
         one_run(ctx, idx, &mut out);
